@@ -197,7 +197,8 @@ Ltac proj := cbn [running maxw cur gens workers subs stop rz resizing executed p
                   set_running set_gens set_workers set_subs set_stop set_rz set_resizing set_executed set_panicked
                   put_gen put_sub tell queued rz_pend].
 
-Ltac counts := rewrite !cnt_places; unfold queued; proj.
+Ltac counts := rewrite !cnt_places; unfold queued; proj;
+  try (match goal with E : rz _ = _ |- _ => rewrite !E end); proj.
 
 (* the submitter table after the three kinds of update used by [step] *)
 Lemma keys_put s t x : keys (put_sub s t x) = keys s.
@@ -277,61 +278,322 @@ Proof.
     match goal with E : sub_of _ _ = Some _ |- _ => pose proof (G_not_past _ _ _ Gs E eq_refl) as Z end.
     apply (G_put s _ t SRejected Gs Z); [reflexivity|]. intros u. fin.
   - (* Take *)
-    break H. injection H as <-. apply (G_same s _ Gs eq_refl). intros u.
+    break H. injection H as <-. (apply (G_same s _ Gs); [reflexivity|]). intros u.
     match goal with E : nth_error (gens _) _ = Some ?G0, E' : g_items ?G0 = _ :: ?q |- _ => qset u (g_set_items G0 q) end.
     match goal with E : g_items _ = ?t0 :: _ |- _ => wset u (WExec t0) end. fin.
   - (* ExitCtx *)
-    break H. injection H as <-. apply (G_same s _ Gs eq_refl). intros u. wset u WExit. fin.
+    break H. injection H as <-. (apply (G_same s _ Gs); [reflexivity|]). intros u. wset u WExit. fin.
   - (* ExitClosed *)
-    break H. injection H as <-. apply (G_same s _ Gs eq_refl). intros u. wset u WExit. fin.
+    break H. injection H as <-. (apply (G_same s _ Gs); [reflexivity|]). intros u. wset u WExit. fin.
   - (* Finish *)
-    break H. injection H as <-. apply (G_tell s _ t (SGot (Some t)) Gs eq_refl eq_refl). intros u.
+    break H. injection H as <-. apply (G_tell s _ t (SGot (Some t)) Gs eq_refl); [reflexivity|]. intros u.
     wset u (WIdle (cur s)). fin.
-  - (* StopCall *) break H. injection H as <-. apply (G_same s _ Gs eq_refl). intros u. fin.
+  - (* StopCall *) break H. injection H as <-. (apply (G_same s _ Gs); [reflexivity|]). intros u. fin.
   - (* StopCAS *)
-    break H; injection H as <-; apply (G_same s _ Gs eq_refl); intros u.
+    break H; injection H as <-; (apply (G_same s _ Gs); [reflexivity|]); intros u.
     + match goal with E : nth_error (gens _) _ = Some ?G0 |- _ => qset u (g_cancelled G0) end. fin.
     + fin.
   - (* StopClose *)
-    break H; injection H as <-; apply (G_same s _ Gs eq_refl); intros u.
+    break H; injection H as <-; (apply (G_same s _ Gs); [reflexivity|]); intros u.
     match goal with E : nth_error (gens _) _ = Some ?G0 |- _ => qset u (g_close G0) end. fin.
   - (* StopWait *)
-    break H; injection H as <-; apply (G_same s _ Gs eq_refl); intros u; fin.
+    break H; injection H as <-; (apply (G_same s _ Gs); [reflexivity|]); intros u; fin.
   - (* StopDrain *)
     break H; injection H as <-.
-    + apply (G_same s _ Gs eq_refl); intros u; fin.
-    + apply (G_tell s _ t SNotExec Gs eq_refl eq_refl). intros u.
+    + (apply (G_same s _ Gs); [reflexivity|]); intros u; fin.
+    + apply (G_tell s _ t SNotExec Gs eq_refl); [reflexivity|]. intros u.
       match goal with E : nth_error (gens _) _ = Some ?G0, E' : g_items ?G0 = _ :: ?q |- _ => qset u (g_set_items G0 q) end. fin.
-  - (* RzCall *) break H. injection H as <-. apply (G_same s _ Gs eq_refl). intros u. fin.
+  - (* RzCall *) break H. injection H as <-. (apply (G_same s _ Gs); [reflexivity|]). intros u. fin.
   - (* RzBegin *)
-    break H; injection H as <-; apply (G_same s _ Gs eq_refl); intros u; fin.
+    break H; injection H as <-; (apply (G_same s _ Gs); [reflexivity|]); intros u; fin.
   - (* RzStop *)
-    break H; injection H as <-; apply (G_same s _ Gs eq_refl); intros u.
+    break H; injection H as <-; (apply (G_same s _ Gs); [reflexivity|]); intros u.
     + match goal with E : nth_error (gens _) _ = Some ?G0 |- _ => qset u (g_cancelled G0) end. fin.
     + fin.
     + match goal with E : nth_error (gens _) _ = Some ?G0 |- _ => qset u (g_close G0) end. fin.
   - (* RzClose *)
-    break H; injection H as <-; apply (G_same s _ Gs eq_refl); intros u.
+    break H; injection H as <-; (apply (G_same s _ Gs); [reflexivity|]); intros u.
     match goal with E : nth_error (gens _) _ = Some ?G0 |- _ => qset u (g_close G0) end. fin.
   - (* RzWait *)
-    break H; injection H as <-; apply (G_same s _ Gs eq_refl); intros u; fin.
+    break H; injection H as <-; (apply (G_same s _ Gs); [reflexivity|]); intros u; fin.
   - (* RzDrain *)
-    break H; injection H as <-; apply (G_same s _ Gs eq_refl); intros u.
+    break H; injection H as <-; (apply (G_same s _ Gs); [reflexivity|]); intros u.
     + fin.
     + match goal with E : nth_error (gens _) _ = Some ?G0, E' : g_items ?G0 = _ :: ?q |- _ => qset u (g_set_items G0 q) end. fin.
   - (* RzSwap *)
-    break H; injection H as <-; apply (G_same s _ Gs eq_refl); intros u; counts;
+    break H; injection H as <-; (apply (G_same s _ Gs); [reflexivity|]); intros u; counts;
       rewrite ?flat_map_app, ?exec_tasks_app, ?exec_tasks_repeat_idle, ?cnt_app; cbn [flat_map g_items g_fresh app];
       rewrite ?cnt_nil; lia.
   - (* RzReenq *)
     break H; injection H as <-.
-    + apply (G_same s _ Gs eq_refl); intros u; fin.
-    + apply (G_same s _ Gs eq_refl); intros u; fin.
-    + apply (G_same s _ Gs eq_refl); intros u.
+    + (apply (G_same s _ Gs); [reflexivity|]); intros u; fin.
+    + (apply (G_same s _ Gs); [reflexivity|]); intros u; fin.
+    + (apply (G_same s _ Gs); [reflexivity|]); intros u.
       match goal with E : nth_error (gens _) _ = Some ?G0 |- _ => qset u (g_set_items G0 (g_items G0 ++ [t])) end. fin.
     + apply (G_tell s _ t (dropped c) Gs); [unfold dropped; destruct (overflow_closes c); reflexivity|reflexivity|].
       intros u; fin.
-    + apply (G_same s _ Gs eq_refl); intros u; fin.
+    + (apply (G_same s _ Gs); [reflexivity|]); intros u; fin.
     + apply (G_tell s _ t (dropped c) Gs); [unfold dropped; destruct (overflow_closes c); reflexivity|reflexivity|].
       intros u; fin.
 Qed.
+
+(* ------------------------------------------------------------------ Part 2b: bookkeeping between submitters and places *)
+
+Lemma cnt_active t s :
+  cnt t (active s) = cnt t (queued s) + cnt t (exec_tasks (workers s)) + cnt t (rz_pend (rz s)).
+Proof. unfold active. rewrite !cnt_app. lia. Qed.
+Lemma cnt_places_active t s : cnt t (places s) = cnt t (active s) + cnt t (executed s).
+Proof. unfold places. apply cnt_app. Qed.
+
+Lemma in_tell s t x u st :
+  In (u, st) (subs (tell s t x)) <->
+  exists st0, In (u, st0) (subs s) /\ st = if Nat.eqb u t then match st0 with SWait => x | o => o end else st0.
+Proof. unfold tell; cbn. apply in_upd_sub. Qed.
+Lemma in_put s t x u st :
+  In (u, st) (subs (put_sub s t x)) <-> exists st0, In (u, st0) (subs s) /\ st = if Nat.eqb u t then x else st0.
+Proof. unfold put_sub; cbn. apply in_upd_sub. Qed.
+
+Lemma in_tell_other s t x u st : u <> t -> (In (u, st) (subs (tell s t x)) <-> In (u, st) (subs s)).
+Proof.
+  intros N. rewrite in_tell. apply Nat.eqb_neq in N. rewrite N. split.
+  - intros (st0 & I & ->). exact I.
+  - intros I. exists st. auto.
+Qed.
+Lemma in_put_other s t x u st : u <> t -> (In (u, st) (subs (put_sub s t x)) <-> In (u, st) (subs s)).
+Proof.
+  intros N. rewrite in_put. apply Nat.eqb_neq in N. rewrite N. split.
+  - intros (st0 & I & ->). exact I.
+  - intros I. exists st. auto.
+Qed.
+Lemma in_put_self s t x st : In (t, st) (subs (put_sub s t x)) -> st = x.
+Proof. rewrite in_put. rewrite Nat.eqb_refl. intros (st0 & _ & ->). reflexivity. Qed.
+Lemma in_put_self' s t x st0 : In (t, st0) (subs s) -> In (t, x) (subs (put_sub s t x)).
+Proof. intros I. apply in_put. exists st0. rewrite Nat.eqb_refl. auto. Qed.
+Lemma in_tell_wait s t x : In (t, SWait) (subs s) -> In (t, x) (subs (tell s t x)).
+Proof. intros I. apply in_tell. exists SWait. rewrite Nat.eqb_refl. auto. Qed.
+(* an entry that is not SWait is not touched *)
+Lemma in_tell_keep s t x u st : st <> SWait -> In (u, st) (subs s) -> In (u, st) (subs (tell s t x)).
+Proof. intros N I. apply in_tell. exists st. split; [exact I|]. destruct (Nat.eqb u t); [|reflexivity]. destruct st; congruence. Qed.
+(* where an entry of the told table comes from *)
+Lemma in_tell_inv s t x u st :
+  In (u, st) (subs (tell s t x)) -> (u = t /\ st = x /\ In (t, SWait) (subs s)) \/ (In (u, st) (subs s) /\ (u <> t \/ st <> SWait)).
+Proof.
+  rewrite in_tell. intros (st0 & I & E). destruct (Nat.eqb u t) eqn:Q.
+  - apply Nat.eqb_eq in Q. subst u. destruct st0; subst st; try (right; split; [exact I|right; discriminate]).
+    left. auto.
+  - apply Nat.eqb_neq in Q. subst st. right. auto.
+Qed.
+
+Record Book (s : state) : Prop := {
+  b_wait1 : forall t, In (t, SWait) (subs s) -> cnt t (active s) >= 1;
+  b_wait2 : forall t, cnt t (active s) >= 1 -> In (t, SWait) (subs s);
+  b_got : forall t v, In (t, SGot v) (subs s) -> v = Some t /\ In t (executed s);
+  b_exd : forall t, In t (executed s) -> In (t, SGot (Some t)) (subs s);
+  b_nop : panicked s = false -> forall t, ~ In (t, SPanic) (subs s) }.
+
+Lemma Book_init n : Book (init n).
+Proof.
+  split; cbn; try tauto.
+  intros t. unfold active, queued. cbn. rewrite exec_tasks_repeat_idle. cbn. unfold cnt; cbn. lia.
+Qed.
+
+(* nothing about submitters, places or the log changes *)
+Lemma Book_same s s' :
+  Book s -> subs s' = subs s -> (forall u, cnt u (active s') = cnt u (active s)) -> executed s' = executed s ->
+  panicked s' = panicked s -> Book s'.
+Proof.
+  intros B E A X P. split.
+  - intros t. rewrite E, A. apply (b_wait1 _ B).
+  - intros t. rewrite E, A. apply (b_wait2 _ B).
+  - intros t v. rewrite E, X. apply (b_got _ B).
+  - intros t. rewrite E, X. apply (b_exd _ B).
+  - rewrite E, P. apply (b_nop _ B).
+Qed.
+
+Lemma sst_panic_dec (x : sst) : {x = SPanic} + {x <> SPanic}.
+Proof. destruct x; (left; reflexivity) || (right; discriminate). Qed.
+
+(* the entry of a task that is nowhere in the pool changes to something that is neither SWait nor SGot *)
+Lemma Book_put s s' t x :
+  G s -> Book s -> cnt t (places s) = 0 -> subs s' = subs (put_sub s t x) ->
+  x <> SWait -> (forall v, x <> SGot v) -> (x = SPanic -> panicked s' = true) -> (x <> SPanic -> panicked s' = panicked s) ->
+  (forall u, cnt u (active s') = cnt u (active s)) -> executed s' = executed s -> Book s'.
+Proof.
+  intros Gs B Z E NW NG PP PN A X. rewrite cnt_places_active in Z. split.
+  - intros u. rewrite E, A. intros I. destruct (Nat.eq_dec u t) as [->|N].
+    + apply in_put_self in I. congruence.
+    + apply (b_wait1 _ B). apply (in_put_other s t x); assumption.
+  - intros u. rewrite E, A. intros C. destruct (Nat.eq_dec u t) as [->|N]; [lia|].
+    apply in_put_other; [exact N|]. apply (b_wait2 _ B). exact C.
+  - intros u v. rewrite E, X. intros I. destruct (Nat.eq_dec u t) as [->|N].
+    + apply in_put_self in I. exfalso. apply (NG v). congruence.
+    + apply (b_got _ B). apply (in_put_other s t x); assumption.
+  - intros u. rewrite E, X. intros I. destruct (Nat.eq_dec u t) as [->|N].
+    + apply cnt_in in I. lia.
+    + apply in_put_other; [exact N|]. apply (b_exd _ B). exact I.
+  - intros P u. rewrite E. intros I. destruct (Nat.eq_dec u t) as [->|N].
+    + apply in_put_self in I. symmetry in I. specialize (PP I). congruence.
+    + apply (in_put_other s t x) in I; [|exact N]. destruct (sst_panic_dec x) as [XP|XP].
+      * specialize (PP XP). congruence.
+      * rewrite (PN XP) in P. exact (b_nop _ B P u I).
+Qed.
+
+Lemma Book_call s s' t :
+  Book s -> subs s' = (t, SCalled) :: subs s -> (forall u, cnt u (active s') = cnt u (active s)) ->
+  executed s' = executed s -> panicked s' = panicked s -> Book s'.
+Proof.
+  intros B E A X P. split.
+  - intros u. rewrite E, A. intros [I|I]; [discriminate|]. apply (b_wait1 _ B _ I).
+  - intros u. rewrite E, A. intros C. right. apply (b_wait2 _ B _ C).
+  - intros u v. rewrite E, X. intros [I|I]; [discriminate|]. apply (b_got _ B _ _ I).
+  - intros u. rewrite E, X. intros I. right. apply (b_exd _ B _ I).
+  - rewrite E, P. intros Q u [I|I]; [discriminate|]. exact (b_nop _ B Q u I).
+Qed.
+
+Lemma Book_enq s s' t st0 :
+  G s -> Book s -> cnt t (places s) = 0 -> In (t, st0) (subs s) -> subs s' = subs (put_sub s t SWait) ->
+  (forall u, cnt u (active s') = cnt u (active s) + if Nat.eq_dec t u then 1 else 0) ->
+  executed s' = executed s -> panicked s' = panicked s -> Book s'.
+Proof.
+  intros Gs B Z I0 E A X P. rewrite cnt_places_active in Z. split.
+  - intros u. rewrite E, A. intros I. destruct (Nat.eq_dec t u) as [->|N]; [lia|].
+    assert (u <> t) as N' by congruence. apply (in_put_other s t SWait) in I; [|exact N'].
+    pose proof (b_wait1 _ B _ I). lia.
+  - intros u. rewrite E, A. intros C. destruct (Nat.eq_dec t u) as [->|N].
+    + apply (in_put_self' s u SWait st0 I0).
+    + apply in_put_other; [congruence|]. apply (b_wait2 _ B). lia.
+  - intros u v. rewrite E, X. intros I. destruct (Nat.eq_dec u t) as [->|N].
+    + apply in_put_self in I. discriminate.
+    + apply (b_got _ B). apply (in_put_other s t SWait); assumption.
+  - intros u. rewrite E, X. intros I. destruct (Nat.eq_dec u t) as [->|N].
+    + apply cnt_in in I. lia.
+    + apply in_put_other; [exact N|]. apply (b_exd _ B). exact I.
+  - rewrite E, P. intros Q u I. destruct (Nat.eq_dec u t) as [->|N].
+    + apply in_put_self in I. discriminate.
+    + apply (in_put_other s t SWait) in I; [|exact N]. exact (b_nop _ B Q u I).
+Qed.
+
+(* task t leaves the pool (it was in [active]): its waiting submitter is told x *)
+Lemma Book_tell s s' t x :
+  G s -> Book s -> subs s' = subs (tell s t x) ->
+  (forall u, cnt u (active s') + (if Nat.eq_dec t u then 1 else 0) = cnt u (active s)) ->
+  (x = SNotExec /\ executed s' = executed s) \/ (x = SGot (Some t) /\ executed s' = t :: executed s) ->
+  panicked s' = panicked s -> Book s'.
+Proof.
+  intros Gs B E A D P.
+  assert (T0 : cnt t (active s') = 0).
+  { pose proof (A t) as At. destruct (Nat.eq_dec t t); [|congruence].
+    pose proof (g_once _ Gs t) as O. rewrite cnt_places_active in O. lia. }
+  assert (TW : In (t, SWait) (subs s)).
+  { apply (b_wait2 _ B). pose proof (A t) as At. destruct (Nat.eq_dec t t); [lia|congruence]. }
+  assert (XW : x <> SWait) by (destruct D as [[-> _]|[-> _]]; discriminate).
+  assert (XP : x <> SPanic) by (destruct D as [[-> _]|[-> _]]; discriminate).
+  assert (SUB : forall u, In u (executed s) -> In u (executed s')).
+  { intros u I. destruct D as [[_ ->]|[_ ->]]; [exact I|right; exact I]. }
+  split.
+  - intros u. rewrite E. intros I. apply in_tell_inv in I. destruct I as [(-> & Q & _)|(I & [N|N])]; try congruence.
+    pose proof (b_wait1 _ B _ I). pose proof (A u) as Au. destruct (Nat.eq_dec t u); [congruence|lia].
+  - intros u C. rewrite E. assert (u <> t) as N by (intros ->; lia).
+    apply in_tell_other; [exact N|]. apply (b_wait2 _ B). pose proof (A u). lia.
+  - intros u v. rewrite E. intros I. apply in_tell_inv in I. destruct I as [(-> & Q & _)|(I & _)].
+    + destruct D as [[-> _]|[-> ->]]; [discriminate|]. injection Q as ->. split; [reflexivity|left; reflexivity].
+    + destruct (b_got _ B _ _ I) as (V & IX). split; [exact V|apply SUB; exact IX].
+  - intros u I. rewrite E. destruct D as [[_ X]|[-> X]]; rewrite X in I.
+    + apply in_tell_keep; [discriminate|]. apply (b_exd _ B _ I).
+    + destruct I as [<-|I]; [apply in_tell_wait; exact TW|]. apply in_tell_keep; [discriminate|]. apply (b_exd _ B _ I).
+  - rewrite E, P. intros Q u I. apply in_tell_inv in I. destruct I as [(_ & Q' & _)|(I & _)]; [congruence|].
+    exact (b_nop _ B Q u I).
+Qed.
+
+Ltac acounts := rewrite !cnt_active; unfold queued; proj;
+  try (match goal with E : rz _ = _ |- _ => rewrite !E end); proj.
+Ltac afin := acounts; rewrite ?cnt_app, ?cnt_cons, ?cnt_nil; intros; lia.
+
+Ltac rf := first [reflexivity | cbn; congruence].
+
+Lemma Book_step c s l s' : overflow_closes c = true -> G s -> Book s -> step c s l = Some s' -> Book s'.
+Proof.
+  intros OC Gs B H. unfold step in H. destruct (panicked s) eqn:EP; [discriminate|].
+  assert (DR : dropped c = SNotExec) by (unfold dropped; rewrite OC; reflexivity).
+  destruct l.
+  - (* SubmitCall *)
+    break H. injection H as <-. apply (Book_call s _ t B); [rf|intros u|rf|rf]. afin.
+  - (* SubmitBegin *)
+    break H. injection H as <-.
+    match goal with E : sub_of _ _ = Some _ |- _ => pose proof (G_not_past _ _ _ Gs E eq_refl) as Z end.
+    apply (Book_put s _ t (if running s then SPending (cur s) else SRejected) Gs B Z);
+      [reflexivity|destruct (running s); discriminate|intros v; destruct (running s); discriminate
+      |destruct (running s); discriminate|reflexivity|intros u|reflexivity]. afin.
+  - (* SubmitEnq *)
+    break H; injection H as <-;
+    match goal with E : sub_of _ _ = Some _ |- _ => pose proof (G_not_past _ _ _ Gs E eq_refl) as Z; pose proof (sub_of_in _ _ _ E) as I end.
+    + apply (Book_put s _ t SPanic Gs B Z); [reflexivity|discriminate|discriminate|reflexivity|congruence|intros u|reflexivity]. afin.
+    + apply (Book_enq s _ t _ Gs B Z I); [rf|intros u|rf|rf].
+      match goal with E : nth_error (gens _) _ = Some ?G0 |- _ => qset u (g_set_items G0 (g_items G0 ++ [t])) end.
+      acounts. intros Q. destruct (Nat.eq_dec t u); lia.
+  - (* SubmitTimeout *)
+    break H. injection H as <-.
+    match goal with E : sub_of _ _ = Some _ |- _ => pose proof (G_not_past _ _ _ Gs E eq_refl) as Z end.
+    apply (Book_put s _ t SRejected Gs B Z); [reflexivity|discriminate|discriminate|discriminate|reflexivity|intros u|reflexivity]. afin.
+  - (* Take *)
+    break H. injection H as <-. apply (Book_same s _ B); [rf|intros u|rf|rf].
+    match goal with E : nth_error (gens _) _ = Some ?G0, E' : g_items ?G0 = _ :: ?q |- _ => qset u (g_set_items G0 q) end.
+    match goal with E : g_items _ = ?t0 :: _ |- _ => wset u (WExec t0) end. afin.
+  - (* ExitCtx *)
+    break H. injection H as <-. apply (Book_same s _ B); [rf|intros u|rf|rf]. wset u WExit. afin.
+  - (* ExitClosed *)
+    break H. injection H as <-. apply (Book_same s _ B); [rf|intros u|rf|rf]. wset u WExit. afin.
+  - (* Finish *)
+    break H. injection H as <-. apply (Book_tell s _ t (SGot (Some t)) Gs B); [reflexivity|intros u|right; split; reflexivity|reflexivity].
+    wset u (WIdle (cur s)). acounts. rewrite ?cnt_cons, ?cnt_nil. intros. destruct (Nat.eq_dec t u); lia.
+  - (* StopCall *) break H. injection H as <-. apply (Book_same s _ B); [rf|intros u|rf|rf]. afin.
+  - (* StopCAS *)
+    break H; injection H as <-; (apply (Book_same s _ B); [rf|intros u|rf|rf]).
+    + match goal with E : nth_error (gens _) _ = Some ?G0 |- _ => qset u (g_cancelled G0) end. afin.
+    + afin.
+  - (* StopClose *)
+    break H; injection H as <-; (apply (Book_same s _ B); [rf|intros u|rf|rf]).
+    match goal with E : nth_error (gens _) _ = Some ?G0 |- _ => qset u (g_close G0) end. afin.
+  - (* StopWait *)
+    break H; injection H as <-; (apply (Book_same s _ B); [rf|intros u|rf|rf]); afin.
+  - (* StopDrain *)
+    break H; injection H as <-.
+    + apply (Book_same s _ B); [rf|intros u|rf|rf]; afin.
+    + apply (Book_tell s _ t SNotExec Gs B); [reflexivity|intros u|left; split; reflexivity|reflexivity].
+      match goal with E : nth_error (gens _) _ = Some ?G0, E' : g_items ?G0 = _ :: ?q |- _ => qset u (g_set_items G0 q) end.
+      acounts. intros. destruct (Nat.eq_dec t u); lia.
+  - (* RzCall *) break H. injection H as <-. apply (Book_same s _ B); [rf|intros u|rf|rf]. afin.
+  - (* RzBegin *)
+    break H; injection H as <-; (apply (Book_same s _ B); [rf|intros u|rf|rf]); afin.
+  - (* RzStop *)
+    break H; injection H as <-; (apply (Book_same s _ B); [rf|intros u|rf|rf]).
+    + match goal with E : nth_error (gens _) _ = Some ?G0 |- _ => qset u (g_cancelled G0) end. afin.
+    + afin.
+    + match goal with E : nth_error (gens _) _ = Some ?G0 |- _ => qset u (g_close G0) end. afin.
+  - (* RzClose *)
+    break H; injection H as <-; (apply (Book_same s _ B); [rf|intros u|rf|rf]).
+    match goal with E : nth_error (gens _) _ = Some ?G0 |- _ => qset u (g_close G0) end. afin.
+  - (* RzWait *)
+    break H; injection H as <-; (apply (Book_same s _ B); [rf|intros u|rf|rf]); afin.
+  - (* RzDrain *)
+    break H; injection H as <-; (apply (Book_same s _ B); [rf|intros u|rf|rf]).
+    + afin.
+    + match goal with E : nth_error (gens _) _ = Some ?G0, E' : g_items ?G0 = _ :: ?q |- _ => qset u (g_set_items G0 q) end. afin.
+  - (* RzSwap *)
+    break H; injection H as <-; (apply (Book_same s _ B); [rf|intros u|rf|rf]); acounts;
+      rewrite ?flat_map_app, ?exec_tasks_app, ?exec_tasks_repeat_idle, ?cnt_app; cbn [flat_map g_items g_fresh app];
+      rewrite ?cnt_nil; lia.
+  - (* RzReenq *)
+    break H; injection H as <-.
+    + apply (Book_same s _ B); [rf|intros u|rf|rf]; afin.
+    + (* panic in Resize: nothing else changes *)
+      split; proj; try apply B. discriminate.
+    + apply (Book_same s _ B); [rf|intros u|rf|rf].
+      match goal with E : nth_error (gens _) _ = Some ?G0 |- _ => qset u (g_set_items G0 (g_items G0 ++ [t])) end. afin.
+    + rewrite DR. apply (Book_tell s _ t SNotExec Gs B); [reflexivity|intros u|left; split; reflexivity|reflexivity].
+      acounts. rewrite ?cnt_cons. destruct (Nat.eq_dec t u); lia.
+    + apply (Book_same s _ B); [rf|intros u|rf|rf]; afin.
+    + rewrite DR. apply (Book_tell s _ t SNotExec Gs B); [reflexivity|intros u|left; split; reflexivity|reflexivity].
+      acounts. rewrite ?cnt_cons. destruct (Nat.eq_dec t u); lia.
+Qed.
+
